@@ -252,6 +252,14 @@ def _one_literal(py, what: str, lits: List[str], node) -> str:
     return lits[0]
 
 
+def page_dir_name(py) -> str:
+    """the directory below the output directory that static pages are written to: symbolic value of BasePage.page_dir"""
+    vals = py.path_values("BasePage", "page_dir", {"self.out_dir": "{out}"})
+    if len(vals) != 1 or not next(iter(vals)).startswith("{out}/") or "{" in next(iter(vals))[len("{out}/"):]:
+        raise AnalysisError(f"BasePage.page_dir: expected <output dir>/<one literal directory>, found {sorted(vals)}")
+    return next(iter(vals))[len("{out}/"):]
+
+
 def r3_layout_names(ctx, rep):
     """The layout is spelled at several sites; each site's directory literal is extracted from its path expression and the
     sites are compared with each other (not with a fixed text)."""
@@ -284,7 +292,7 @@ def r3_layout_names(ctx, rep):
     pd = astq.assignments(bp, "self.page_dir")
     if not pd:
         raise AnalysisError("BasePage.__init__: self.page_dir not assigned")
-    d_page = _one_literal(py, "BasePage.page_dir", astq.path_literals(pd[0][1], bp), pd[0][0])
+    d_page = page_dir_name(py)
     rep.ob("pages are written below the directory the |page| alias names", d_page == a_page,
            f"<out>/{d_page}" if d_page == a_page else f"pages are written to <out>/{d_page} but |page| expands to "
            f"<project_url>/{a_page}", py.nloc(pd[0][0]))
@@ -302,15 +310,15 @@ def r3_layout_names(ctx, rep):
             any(isinstance(a, ast.Attribute) and a.attr == "filename" for a in ast.walk(x))
     ok = any(astq.mentions(e, "self.location", pth) for e in r) and any(html_name(x) for e in r for x in astq.expand_locals(e, pth))
     rep.ob("PageNode.path = location/stem.html", ok, "", py.nloc(pth))
-    loc, outf = py.func("PagetreePage.loc"), py.func("PagetreePage.outfile")
-    rl, ro = astq.returns(loc), astq.returns(outf)
-    l_page = _one_literal(py, "PagetreePage.loc", [l for e in rl for l in astq.path_literals(e, loc)], loc)
-    ok = l_page == d_page and any(astq.mentions(e, "self.obj.path", loc) for e in rl) and \
-        any(astq.mentions(e, "self.page_dir", outf) and astq.mentions(e, "self.obj.path", outf) for e in ro)
+    # symbolic values of the two properties, resolved through the class hierarchy (an `outfile` inherited from the base class
+    # and built from `loc` is the same thing as two separate expressions)
+    penv = {"self.out_dir": "{out}", "self.obj.path": "{path}"}
+    loc_v, out_v = py.path_values("PagetreePage", "loc", penv), py.path_values("PagetreePage", "outfile", penv)
+    loc = py.resolve_method("PagetreePage", "loc")[1]
+    ok = loc_v == {f"{d_page}/{{path}}"} and out_v == {"{out}/" + v for v in loc_v}
     rep.ob("PagetreePage.loc/outfile use the same relative path", ok,
            "the search-index location and the written file agree with the URL" if ok else
-           f"loc = {[ast.unparse(e) for e in rl]}, outfile = {[ast.unparse(e) for e in ro]}: they no longer name the same file "
-           f"below '{d_page}'", py.nloc(loc))
+           f"loc = {sorted(loc_v)}, outfile = {sorted(out_v)}: they no longer name the same file below '{d_page}'", py.nloc(loc))
     pn = py.ifunc("PageNode.__init__")
     locs = astq.assignments(pn, "self.location")
     rel = [v for _, v in locs if any(call_name(c).endswith("relpath") or call_name(c).endswith("relative_to") for c in ast.walk(v) if isinstance(c, ast.Call))]
@@ -331,7 +339,7 @@ def r4_conversion_path(ctx, rep):
     if not conv:
         raise AnalysisError("PageNode.__init__: md.convert call not found")
     bp = py.func("BasePage.__init__")
-    d_page = _one_literal(py, "BasePage.page_dir", astq.path_literals(astq.assignments(bp, "self.page_dir")[0][1], bp), bp)
+    d_page = page_dir_name(py)
     for c in conv:
         kw = {k.arg: k.value for k in c.keywords}
         if "path" not in kw:
@@ -511,6 +519,46 @@ def r8_one_page_per_file(ctx, rep):
     from . import common
     common.double_suffix_strip(ctx, rep)
 
+def r9_root_alias_is_relative(ctx, rep):
+    """`|url|` expands to the output directory itself.  The tree processor that turns absolute targets below the output
+    directory into relative ones decides "below" with a containment test; `base in path.parents` is false for `path == base`,
+    so `[home](|url|)` keeps the absolute build path.  The test has to include the directory itself (`==`, `(p, *p.parents)` or
+    `is_relative_to`)."""
+    py = ctx.py
+    cls = py.cls("RelativeLinksTreeProcessor")
+    n = 0
+    for mname, fn in cls.methods.items():
+        for c in ast.walk(fn):
+            if isinstance(c, ast.Call) and isinstance(c.func, ast.Attribute) and c.func.attr == "is_relative_to":
+                n += 1
+                rep.ob(f"RelativeLinksTreeProcessor.{mname}: containment test includes the directory itself", True,
+                       "is_relative_to", py.nloc(c))
+            if not (isinstance(c, ast.Compare) and len(c.ops) == 1 and isinstance(c.ops[0], (ast.In, ast.NotIn))):
+                continue
+            right = c.comparators[0]
+            if isinstance(right, ast.Attribute) and right.attr == "parents":
+                n += 1
+                path = ast.unparse(right.value)
+                # an accompanying equality test of the same operands in the same boolean expression
+                par = py.parents.get(c)
+                eq = isinstance(par, ast.BoolOp) and any(
+                    isinstance(v, ast.Compare) and isinstance(v.ops[0], (ast.Eq, ast.NotEq)) and
+                    {ast.unparse(v.left), ast.unparse(v.comparators[0])} == {ast.unparse(c.left), path} for v in par.values)
+                rep.ob(f"RelativeLinksTreeProcessor.{mname}: containment test includes the directory itself", eq,
+                       "equality is tested alongside" if eq else
+                       f"`{ast.unparse(c)}` is false when `{path}` *is* `{ast.unparse(c.left)}`: a link whose target is the alias "
+                       f"`|url|` alone stays the absolute path of the build directory", py.nloc(c))
+            elif isinstance(right, (ast.Tuple, ast.List)) and any(
+                    isinstance(e, ast.Starred) and isinstance(e.value, ast.Attribute) and e.value.attr == "parents" for e in right.elts):
+                n += 1
+                star = next(e for e in right.elts if isinstance(e, ast.Starred))
+                ok = any(not isinstance(e, ast.Starred) and ast.unparse(e) == ast.unparse(star.value.value) for e in right.elts)
+                rep.ob(f"RelativeLinksTreeProcessor.{mname}: containment test includes the directory itself", ok,
+                       f"`{ast.unparse(right)[:50]}`", py.nloc(c))
+    if n < 1:
+        raise AnalysisError("RelativeLinksTreeProcessor: the containment test of the base URL was not found")
+
+
 RULES = [
     RuleSpec("C17.R6", r6_links_and_empty_pages, "link fragments survive; an empty page is harmless", floor=1),
     RuleSpec("C17.R1", r1_containment, "containment of a bad page", floor=2),
@@ -520,4 +568,5 @@ RULES = [
     RuleSpec("C17.R5", r5_copy_for_every_page, "assets copied for every page", floor=2),
     RuleSpec("C17.R8", r8_one_page_per_file, "the page name keeps every dot of the file name but the last suffix", floor=1),
     RuleSpec("C17.R7", r7_memo, "no cached link element outlives the page it was made for", floor=1),
+    RuleSpec("C17.R9", r9_root_alias_is_relative, "the alias of the output root itself is made relative", floor=1),
 ]
